@@ -80,7 +80,7 @@ class RProp(Prop):
                      "distinct = distinct canonical configuration." % max_jobs)
 
     def generate(self, tier, rnd):
-        n = 1000 if tier == "quick" else 20000
+        n = 1000 if tier == "quick" else 100000
         out = []
         for _ in range(n):
             mj = rnd.choice([3, 5, 8, self.max_jobs, self.max_jobs])
